@@ -490,6 +490,101 @@ fn run_long_ind(c: &LongInd, st: &mut Stats) -> CaseResult {
 	Ok(())
 }
 
+// ---------------------------------------------------------------------------------------
+// every indicator, any averages: late invariants and late signals on long structured streams
+
+#[derive(Serialize, Deserialize, Clone, Debug)]
+pub struct LongAny {
+	pub cfg: CfgCase,
+	pub seed: u64,
+	pub steps: u64,
+	/// 0: the regime stream of the other long checks; 1..: persistent trends with a zig-zag (up, down, long saw-tooth)
+	pub shape: u8,
+	pub zig_period: u8,
+}
+
+/// close of step i of a persistent trend with a zig-zag of period zp (pure function of its arguments)
+fn trend_close(shape: u8, zp: u64, steps: u64, i: u64, r: f64) -> f64 {
+	let step = 0.05;
+	let ph = i % zp;
+	let tri = if zp == 2 { if ph == 0 { -1.0 } else { 1.0 } } else { 1.0 - 2.0 * (ph as f64 / (zp - 1) as f64) };
+	let level = match shape {
+		1 => 100.0 + step * i as f64,
+		2 => 100.0 + step * (steps - i) as f64,
+		_ => {
+			let half = 20_000u64;
+			let k = i % (2 * half);
+			100.0 + step * (if k < half { k } else { 2 * half - k }) as f64
+		}
+	};
+	gen::vt(level + step * (0.6 * tri + 0.1 * (r - 0.5)))
+}
+
+fn run_long_any(c: &LongAny, st: &mut Stats) -> CaseResult {
+	let cfg = cfggen::instantiate(&c.cfg).map_err(|e| Failure::new("C07:generator", format!("{}: {e}", c.cfg.name)))?;
+	let name = c.cfg.name.as_str();
+	let cj = cfg.to_json();
+	let pmax = cfggen::max_period(&cj).max(2) as usize;
+	let mut p = Proc::new(c.seed, 50, true);
+	let zp = c.zig_period.clamp(2, 5) as u64;
+	let mut prev = 100.0;
+	let mut next_candle = |p: &mut Proc, prev: f64, t: u64| -> C5 {
+		if c.shape == 0 {
+			return candle_of(p, prev, t);
+		}
+		let r = engine::mix(c.seed, t);
+		let cl = trend_close(c.shape, zp, c.steps, t, (r >> 11) as f64 / (1u64 << 53) as f64);
+		let o = if t == 0 { cl } else { prev };
+		let w = match (r >> 3) % 3 {
+			0 => 0.0,
+			1 => cl * 1e-4,
+			_ => cl * 1e-3,
+		};
+		let (h, l) = (gen::vt(o.max(cl) + w).max(o.max(cl)), gen::vt(o.min(cl) - w).min(o.min(cl)));
+		C5 { o, h, l, c: cl, v: if (r >> 40) % 7 == 0 { 0.0 } else { ((r >> 44) % 10_000) as f64 } }
+	};
+	let first = next_candle(&mut p, prev, 0);
+	let mut inst = cfg.init(&first.candle()).map_err(|e| Failure::new(format!("C07:{name}:init"), format!("{cj}: {e:?}")))?;
+	let mut sig = crate::props::c06::SigRef::new(name, &cj, &first);
+	// (two indicators implement another rule than documented: known C06 findings, their signals are not judged here)
+	let judge_signals = !matches!(name, "PivotReversalStrategy" | "TrendStrengthIndex" | "DetrendedPriceOscillator");
+	let keep = 3 * pmax + 8;
+	let mut recent: Vec<C5> = Vec::new();
+	let (mut m, mut mv) = (first.h, first.v);
+	let mut fired = vec![(0u32, 0u32); 4];
+	let mut late_fired = 0u64;
+	for t in 0..c.steps {
+		let cd = if t == 0 { first } else { next_candle(&mut p, prev, t) };
+		prev = cd.c;
+		m = m.max(cd.h);
+		mv = mv.max(cd.v);
+		recent.push(cd);
+		if recent.len() > 2 * keep {
+			recent.drain(..keep);
+		}
+		let r = inst.next(&cd.candle());
+		let vals: Vec<f64> = r.values().iter().map(|x| *x as f64).collect();
+		// documented ranges and orderings, at every step however late (the allowance knows the true age)
+		crate::props::c12::check_step_at(name, &cj, &recent, recent.len() - 1, t as usize, m, mv, &vals, st).map_err(|f| Failure::new(format!("C07:late-invariant:{}", f.sig), format!("after {t} candles: {}", f.msg)))?;
+		if judge_signals {
+			let before: u32 = fired.iter().map(|f| f.0 + f.1).sum();
+			crate::props::c06::check_signals(name, &mut sig, &cd, &vals, r.signals(), t as usize, &cj, st, &mut fired).map_err(|f| Failure::new(format!("C07:late-signal:{}", f.sig), format!("after {t} candles: {}", f.msg)))?;
+			let after: u32 = fired.iter().map(|f| f.0 + f.1).sum();
+			if t > 1024 && after > before {
+				late_fired += 1;
+			}
+		}
+	}
+	st.count("steps", c.steps);
+	st.count("late_signals", late_fired);
+	if c.steps > 1024 {
+		st.nontrivial(engine::fnv(format!("{:?}", c).as_bytes()));
+	}
+	st.class(if c.shape == 0 { "regimes" } else { "persistent trend with zig-zag" });
+	st.sample(&format!("any/{name}"), || serde_json::to_value(c).unwrap());
+	Ok(())
+}
+
 /// indicators whose state is a finite window of the candle history (no recursive averages)
 fn finite_memory_cfg(name: &'static str) -> impl Strategy<Value = CfgCase> {
 	cfggen::config_strategy(name, GenOpts { wide: false, price_sources: true, nonneg_ma: false }).prop_map(move |mut c| {
@@ -544,10 +639,17 @@ pub fn def(tier: Tier) -> PropertyDef {
 		let strat = (finite_memory_cfg(name), any::<u64>()).prop_map(move |(cfg, seed)| LongInd { cfg, seed, steps: steps / 4 });
 		checks.push(pt(&format!("long_indicator_{name}"), tier.pick(6, 8), strat, run_long_ind));
 	}
+	// every indicator with any averages: invariants and signals at every step of long structured streams
+	for name in cfggen::NAMES {
+		let opts = GenOpts { wide: false, price_sources: true, nonneg_ma: matches!(name, "RelativeStrengthIndex" | "StochasticOscillator" | "SMIErgodicIndicator" | "Envelopes" | "KeltnerChannel") };
+		let st = tier.pick(steps / 10, steps / 25);
+		let strat = (cfggen::config_strategy(name, opts), any::<u64>(), 0u8..4, 2u8..=5).prop_map(move |(cfg, seed, shape, zig_period)| LongAny { cfg, seed, steps: st, shape, zig_period });
+		checks.push(pt(&format!("long_any_{name}"), tier.pick(6, 8), strat, run_long_any));
+	}
 	PropertyDef {
 		id: "C07",
 		level: "exploration",
-		rule: "Procedural streams (pure function of a (seed, regime) record; regimes: random walk, exactly flat, 10^+-k scale jump, monotone drift, integer lattice, sign flip) of 3*10^5 (thorough 10^7) steps for every finite-window and selection method at lengths {1,2,3,5,14,100,254}, 10^5 (3.3*10^6) steps for the reversal detectors, 7.5*10^4 (2.5*10^6) candles for the finite-memory indicators (CMO, MFI, RSI, SAR named by the property and nine others) with window-type averages. Oracles: (i) selections/positions/reversals compared EXACTLY with the from-scratch definition on a ring of recent inputs - every step of the first 2*256+n, bands around every multiple of 2^8 and 2^16, every 997th step, the last 1000 steps (reversals: every step); (ii) arithmetic outputs against the from-scratch formula at geometrically spaced checkpoints and over the last 3n steps, allowance K*eps*(n+t)*M_t*g; (iii) a fresh instance primed with the last window (2n for TRIMA/HMA; 3*max_period+8 candles for indicators) must agree with the veteran from then on. Non-trivial = a case with at least one late comparison (t > 1024) after >= 2 regime changes.",
+		rule: "Procedural streams (pure function of a (seed, regime) record; regimes: random walk, exactly flat, 10^+-k scale jump, monotone drift, integer lattice, sign flip) of 3*10^5 (thorough 10^7) steps for every finite-window and selection method at lengths {1,2,3,5,14,100,254}, 10^5 (3.3*10^6) steps for the reversal detectors, 7.5*10^4 (2.5*10^6) candles for the finite-memory indicators (CMO, MFI, RSI, SAR named by the property and nine others) with window-type averages. Oracles: (i) selections/positions/reversals compared EXACTLY with the from-scratch definition on a ring of recent inputs - every step of the first 2*256+n, bands around every multiple of 2^8 and 2^16, every 997th step, the last 1000 steps (reversals: every step); (ii) arithmetic outputs against the from-scratch formula at geometrically spaced checkpoints and over the last 3n steps, allowance K*eps*(n+t)*M_t*g; (iii) a fresh instance primed with the last window (2n for TRIMA/HMA; 3*max_period+8 candles for indicators) must agree with the veteran from then on. (iv) every one of the 37 indicators with generated configurations (any average kind) on streams of 3*10^4 (thorough 4*10^5) candles - the regime stream, or a persistent up / down / saw-tooth trend carrying a zig-zag of period 2..5 that keeps oscillators on one side of zero while run, peak and bars-since counters keep counting: at EVERY step the documented ranges and orderings (C12 predicates, allowance for the true age) and every signal recomputed from the returned values (C06 detectors, exact). Non-trivial = a case with at least one late comparison (t > 1024) after >= 2 regime changes; for (iv) a stream longer than 1024 candles.",
 		assumptions: vec!["K = 256; a failure of (ii)/(iii) is classified by whether it stays inside the quadratic worst-case bound of a double accumulator (known-finding class for WMA-type drift) or not".into()],
 		exhaustive: false,
 		checks,
